@@ -122,14 +122,99 @@ func overlapCells() []fw.Case {
 	return cs
 }
 
+// slow task phases, exhaustively: in every live state a first request that gets as far as its task phase —
+// the REAL body of every transition that has one (its command to the tasks held unanswered by the fake task
+// manager; tasks that will comply, tasks that will refuse), the scripted body of DEPLOY / GO_ERROR, the first
+// release round of a teardown — kept there for longer than ANYTHING the environment was configured with (the
+// environment carries user variables with timeout-like names and small values: the table walks through the
+// whole vocabulary), and, arriving meanwhile, every kind of second request (teardown with/without force, every
+// API event through the glue and through TryTransition, scripted and real bodies, GO_ERROR). Before the
+// tasks answer, both callers are sighted a second time (OW): the first must still be in there, the second
+// must not have been let in, the state must not have moved, and no second command may have reached the tasks.
+func holdCells(r *rng.R) []fw.Case {
+	path := map[string][][2]string{
+		"STANDBY":    {},
+		"DEPLOYED":   {{"T", "DEPLOY"}},
+		"CONFIGURED": {{"T", "DEPLOY"}, {"T", "CONFIGURE"}},
+		"RUNNING":    {{"T", "DEPLOY"}, {"T", "CONFIGURE"}, {"T", "START_ACTIVITY"}},
+	}
+	realEv := map[string][]string{"STANDBY": {}, "DEPLOYED": {"CONFIGURE"}, "CONFIGURED": {"RESET", "START_ACTIVITY"}, "RUNNING": {"STOP_ACTIVITY"}}
+	scripted := map[string][]string{"STANDBY": {"DEPLOY"}, "DEPLOYED": {"GO_ERROR"}, "CONFIGURED": {}, "RUNNING": {"GO_ERROR"}}
+	api := []string{"DEPLOY", "CONFIGURE", "RESET", "START_ACTIVITY", "STOP_ACTIVITY"}
+	realAll := []string{"CONFIGURE", "RESET", "START_ACTIVITY", "STOP_ACTIVITY"}
+	names := envh.UVarNames()
+	var cs []fw.Case
+	k := 0
+	for _, st := range []string{"STANDBY", "DEPLOYED", "CONFIGURED", "RUNNING"} {
+		var firsts []*sx.Node
+		for _, ev := range realEv[st] {
+			for _, ok := range []bool{true, false} {
+				firsts = append(firsts, sx.L(sx.A("TR"), sx.A(ev), sx.B(ok), sx.B(false)))
+			}
+		}
+		for _, ev := range scripted[st] {
+			firsts = append(firsts, sx.L(sx.A("T"), sx.A(ev), sx.B(true), sx.B(false)))
+		}
+		firsts = append(firsts, sx.L(sx.A("D"), sx.B(true), sx.B(true), sx.B(true)))
+		for _, q1 := range firsts {
+			var seconds []*sx.Node
+			for _, force := range []bool{true, false} {
+				seconds = append(seconds, sx.L(sx.A("D"), sx.B(force), sx.B(true), sx.B(true)))
+			}
+			for _, ev := range api {
+				seconds = append(seconds, sx.L(sx.A("C"), sx.A(ev), sx.B(true), sx.B(false)), sx.L(sx.A("T"), sx.A(ev), sx.B(true), sx.B(false)))
+			}
+			seconds = append(seconds, sx.L(sx.A("T"), sx.A("GO_ERROR"), sx.B(true), sx.B(false)))
+			if q1.At(0).Str() != "D" {
+				// real bodies behind a teardown attempt are not run (see envh.Run)
+				for _, ev := range realAll {
+					seconds = append(seconds, sx.L(sx.A("CR"), sx.A(ev), sx.B(true), sx.B(false)), sx.L(sx.A("TR"), sx.A(ev), sx.B(true), sx.B(false)))
+				}
+			}
+			for _, q2 := range seconds {
+				reqs := sx.L()
+				for _, p := range path[st] {
+					reqs.Add(sx.L(sx.A(p[0]), sx.A(p[1]), sx.B(true), sx.B(false)))
+				}
+				var own []string
+				for j := 0; j < 5; j++ {
+					own = append(own, names[(5*k+j)%len(names)])
+				}
+				k++
+				uvars := envh.GenUserVars(r, r.N(3), own...)
+				reqs.Add(sx.L(sx.A("P"), q1, q2, sx.I(envh.HoldFor(uvars))))
+				hooks := sx.L(
+					sx.L(sx.I(0), sx.A("call"), sx.B(false), sx.A("DESTROY"), sx.I(0), sx.A("DESTROY"), sx.I(0), sx.L()),
+					sx.L(sx.I(1), sx.A("call"), sx.B(false), sx.A("leave_"+st), sx.I(0), sx.A("leave_"+st), sx.I(0), sx.L()))
+				if q2.At(0).Str() != "D" {
+					ev := q2.At(1).Str()
+					hooks.Add(sx.L(sx.I(2), sx.A("call"), sx.B(false), sx.A("before_"+ev), sx.I(0), sx.A("before_"+ev), sx.I(0), sx.L()))
+				}
+				tags := []string{"hold-cell", "overlapping-requests", "slow-task-phase", "user-vars"}
+				if q1.At(0).Str() == "TR" {
+					tags = append(tags, "real-bodies", "slow-real-body")
+				}
+				cs = append(cs, fw.Case{Input: sx.L(hooks, reqs, sx.I(1), uvars).String(), Tags: tags})
+			}
+		}
+	}
+	return cs
+}
+
 func generate(tier string, r *rng.R) []fw.Case {
 	n := 250
 	if tier == "thorough" {
 		n = 4000
 	}
 	cs := append(cells(), overlapCells()...)
+	cs = append(cs, holdCells(r.Fork())...)
 	for i := 0; i < n; i++ {
-		cs = append(cs, envh.GenCase(r.Fork(), profile))
+		c := envh.GenCase(r.Fork(), profile)
+		// half of the walks: user variables with timeout-like names, every overlapping pair with a slow task phase
+		if r2 := r.Fork(); r2.P(1, 2) {
+			c = envh.WithSlowTaskPhases(c, r2)
+		}
+		cs = append(cs, c)
 	}
 	return cs
 }
@@ -175,19 +260,20 @@ func init() {
 		Rule: "all 6x8 (state,event) cells x {TryTransition, API glue} x {body ok, body fails} with hooks at the request's moments (exhaustive), then random " +
 			"walks of 1..14 requests (30% arbitrary events, 60% through the ControlEnvironment glue, 8% teardowns with scripted release results) over 0..5 hooks " +
 			"(call and task hooks, failing executions, floating awaits; 9% of the positions hold an overlapping pair), plus the exhaustive table of overlapping pairs " +
-			"(5 states x every first request that reaches its critical section x 13 second requests, teardown + control pairs included, also behind a teardown that FAILS at its first or second release round); for every pair the trace records, while the first request is parked inside its critical section, what the second caller was seen doing (queued on transitionMutex / returned / elsewhere) and the state reported before and after; non-trivial = >=2 hooks and >=3 requests; distinct by input text",
+			"(5 states x every first request that reaches its critical section x 13 second requests, teardown + control pairs included, also behind a teardown that FAILS at its first or second release round); for every pair the trace records, while the first request is parked inside its critical section, what the second caller was seen doing (queued on transitionMutex / returned / elsewhere) and the state reported before and after; " +
+			"plus the exhaustive table of SLOW TASK PHASES (4 live states x every first request that reaches its task phase — the REAL body of CONFIGURE / RESET / START_ACTIVITY / STOP_ACTIVITY with tasks that comply or refuse, its command held unanswered by the fake task manager; the scripted body of DEPLOY / GO_ERROR; a teardown's first release round — x 13..21 second requests incl. real bodies): the environment carries user-supplied workflow variables with timeout-like names and small values (the table walks through a vocabulary of 68 names; the model takes no such variable into account), the first request is kept in its task phase for longer than all of them, and both callers are sighted a second time before the tasks answer (first still inside / returned, second queued / returned / inside, state, a second command in flight); half of the random walks carry 1..6 such variables and give every overlapping pair a slow task phase (real bodies where no teardown was attempted before); non-trivial = >=2 hooks and >=3 requests; distinct by input text",
 		Shrink:   envh.Shrink,
 		Workers:  1,
 		Setup:    envh.Setup,
 		Teardown: envh.Teardown,
 		TrustedBase: []string{
-			"harness/envh: environment builder (YAML roles, NewTaskForVerif tasks), probe plugin, event capture, fake task manager answering ReleaseTasks",
+			"harness/envh: environment builder (YAML roles, NewTaskForVerif tasks, user variables on the root role), probe plugin, event capture, fake task manager answering ReleaseTasks and the ConfigureTasks / TransitionTasks commands of real transition bodies (it counts the commands in flight and can hold an answer back)",
 			"the 6 lines of RpcServer.ControlEnvironment (failed transition => GO_ERROR => forced ERROR unless the condition written in the source spares the state) are replicated in the harness; the condition itself is read from core/server.go of the tree under test by go/ast (harness/envh/glue.go) and pinned by C01_glue_is_code; the real RPC is exercised by the whole-core simulator",
 			"verif hooks in /repo: core/environment/verif_hooks.go, core/workflow/verif_hooks.go, core/the/verif_hooks.go, core/task/verif_hooks_task.go",
 		},
 		Assumptions: []string{
 			"looplab/fsm v1.0.1 Event/Cancel semantics as modelled (sampled by every case)",
-			"scripted task-level bodies stand in for the real transition bodies (Deploy/Configure/Start/Stop/Reset talk to the task manager)",
+			"scripted task-level bodies stand in for the real transition bodies (Deploy/Configure/Start/Stop/Reset talk to the task manager) except in TR/CR requests, where the real body of CONFIGURE / RESET / START_ACTIVITY / STOP_ACTIVITY runs against the fake task manager; a slow task phase lasts 2 x the longest generated duration + 30 ms (a time limit the code might read from elsewhere, or one longer than that, is not exercised)",
 			"transitionMutex serialises requests (sync.RWMutex trusted); overlap is arranged pairwise (first request parked inside its critical section; whether the second is then seen blocked on transitionMutex, or returns, or blocks elsewhere is part of the observation, read off a goroutine dump)",
 		},
 	})
